@@ -33,3 +33,10 @@ package pod
 //@ guard call SubResourceWriter.Update in podDelete as delete-steps: isptr(arg1, v1beta1.PodENI) && (asptr(arg1, v1beta1.PodENI).Status.Phase == "Deleting" || (asptr(arg1, v1beta1.PodENI).Status.Phase == "Detaching" && prePodENI.Status.Phase != "Deleting" && prePodENI.Status.Phase != "Detaching"))
 //@ # ... and Detaching is entered from Bind (see /verif/known_findings.json: fixed-IP records in Initial/Binding/Unbind are also sent to Detaching)
 //@ guard call SubResourceWriter.Update in podDelete as detach-from-bind: asptr(arg1, v1beta1.PodENI).Status.Phase == "Detaching" ==> prePodENI.Status.Phase == "Bind"
+
+//@ for C15
+//@ # the pod-networks annotation reaches the pod controller without the webhook's defaults when the webhook is not in the
+//@ # admission path: every optional part of it (allocationType, eniOptions, routes) may be missing
+//@ func ReconcilePod.ParsePodNetworksFromAnnotation
+//@   requires m != nil && m.swPool != nil && anno != nil
+//@   panics
